@@ -2885,6 +2885,26 @@ func (pc *PeerConnection) startRTP(
 	}
 }
 
+// unusedNumericMid returns the mid for a section appended to mediaSections:
+// the number of sections, or the next number no section uses as its mid yet
+// (a remote description may use sparse or one-based numeric mids).
+func unusedNumericMid(mediaSections []mediaSection) string {
+	for n := len(mediaSections); ; n++ {
+		id := strconv.Itoa(n)
+		used := false
+		for _, section := range mediaSections {
+			if section.id == id {
+				used = true
+
+				break
+			}
+		}
+		if !used {
+			return id
+		}
+	}
+}
+
 // generateUnmatchedSDP generates an SDP that doesn't take remote state into account.
 // This is used for the initial call for CreateOffer.
 //
@@ -2956,7 +2976,7 @@ func (pc *PeerConnection) generateUnmatchedSDP(
 
 		if pc.configuration.AlwaysNegotiateDataChannels || pc.sctpTransport.dataChannelsRequested != 0 {
 			mediaSections = append(mediaSections, mediaSection{
-				id:       strconv.Itoa(len(mediaSections)),
+				id:       unusedNumericMid(mediaSections),
 				data:     true,
 				sctpInit: localSctpInit,
 			})
@@ -3135,7 +3155,7 @@ func (pc *PeerConnection) generateMatchedSDP(
 					localSctpInit = pc.sctpTransport.GetSctpInit()
 				}
 				mediaSections = append(mediaSections, mediaSection{
-					id:       strconv.Itoa(len(mediaSections)),
+					id:       unusedNumericMid(mediaSections),
 					data:     true,
 					sctpInit: localSctpInit,
 				})
